@@ -290,13 +290,50 @@ def _enclosing(n, kinds):
     return out
 
 
+def _atoms(e, vary):
+    """what an expression reads of the varying names: (name,) for the
+    whole value, (name, 'key') for `name['key']` / `name.key`"""
+    out = set()
+    skip = set()
+    for x in ast.walk(e):
+        if isinstance(x, ast.Subscript) and isinstance(x.value, ast.Name) \
+                and x.value.id in vary and isinstance(
+                    x.slice, ast.Constant):
+            out.add((x.value.id, repr(x.slice.value)))
+            skip.add(id(x.value))
+        elif isinstance(x, ast.Attribute) and isinstance(
+                x.value, ast.Name) and x.value.id in vary:
+            out.add((x.value.id, '.' + x.attr))
+            skip.add(id(x.value))
+    for x in ast.walk(e):
+        if isinstance(x, ast.Name) and x.id in vary and id(x) not in skip:
+            out.add((x.id,))
+    return out
+
+
+def _local_values(fi, name):
+    """values assigned to a plain local in the function"""
+    out = []
+    for st in ast.walk(fi.node):
+        if isinstance(st, ast.Assign) and len(st.targets) == 1 \
+                and isinstance(st.targets[0], ast.Name) \
+                and st.targets[0].id == name:
+            out.append(st.value)
+    return out
+
+
 def check_memo_keys(ctx, fi, rule='R-MEMO/key-complete'):
     """`if k not in cache: cache[k] = f(a, b, ...)`: the cached value is
     reused for every later occurrence of k, so everything it is computed
-    from that varies during the life of the cache (the loop variables of
-    the loops between the creation of the cache and the store) must be
-    part of the key.  A value computed from (level, label) and cached
-    under label alone is handed to the namesake of another level."""
+    from that varies during the life of the cache must be part of the
+    key.  For a cache created in the function that is the loop variables
+    of the loops between its creation and the store; for a cache held in
+    an attribute of the object (`self._cache`) the parameters of the
+    method.  Parts are compared by access path: a value computed from
+    `item['path']` and `item['layer']` and cached under `item['path']`
+    alone is handed to the next item with that path, whatever its layer;
+    a value computed from (level, label) and cached under label alone is
+    handed to the namesake of another level."""
     creations = dict()
     for st in ast.walk(fi.node):
         if isinstance(st, ast.Assign) and len(st.targets) == 1 \
@@ -307,6 +344,8 @@ def check_memo_keys(ctx, fi, rule='R-MEMO/key-complete'):
                         v.func, ast.Name) and v.func.id == 'dict'
                     and not v.args and not v.keywords):
                 creations.setdefault(st.targets[0].id, []).append(st)
+    params = {a.arg for a in fi.node.args.posonlyargs + fi.node.args.args
+              + fi.node.args.kwonlyargs} - {'self', 'cls'}
     n = 0
     for st in ast.walk(fi.node):
         if not (isinstance(st, ast.Assign) and isinstance(
@@ -316,11 +355,24 @@ def check_memo_keys(ctx, fi, rule='R-MEMO/key-complete'):
         b = tg
         while isinstance(b, (ast.Subscript, ast.Attribute)):
             b = b.value
-        if not (isinstance(b, ast.Name) and b.id in creations):
+        local_cache = isinstance(b, ast.Name) and b.id in creations
+        attr_cache = isinstance(b, ast.Name) and b.id == 'self' \
+            and isinstance(tg.value, ast.Attribute)
+        if not (local_cache or attr_cache):
             continue
         memo = False
         for g in _enclosing(st, (ast.If,)):
             t = g.test
+            if isinstance(t, ast.UnaryOp) and isinstance(t.op, ast.Not) \
+                    and isinstance(t.operand, ast.Compare) and len(
+                        t.operand.ops) == 1 and isinstance(
+                            t.operand.ops[0], ast.In):
+                c = t.operand
+                if unparse(c.comparators[0]) == unparse(tg.value) \
+                        and unparse(c.left) == unparse(tg.slice) \
+                        and st in ast.walk(g) and not any(
+                            st is x for o in g.orelse for x in ast.walk(o)):
+                    memo = True
             if isinstance(t, ast.Compare) and len(t.ops) == 1 \
                     and isinstance(t.ops[0], ast.NotIn) \
                     and unparse(t.comparators[0]) == unparse(tg.value) \
@@ -328,31 +380,66 @@ def check_memo_keys(ctx, fi, rule='R-MEMO/key-complete'):
                 memo = True
         if not memo:
             continue
-        cr_loops = set()
-        for c in creations[b.id]:
-            cr_loops |= {id(lp) for lp in _enclosing(c, (ast.For,))}
-        vary = set()
-        for lp in _enclosing(st, (ast.For,)):
-            if id(lp) not in cr_loops:
-                vary |= {x.id for x in ast.walk(lp.target)
-                         if isinstance(x, ast.Name)}
-        chain = set()
+        # "first one wins, a different later one is an error": where the
+        # key is already present the stored value is compared with the
+        # new one -- a uniqueness check, not a cache
+        checked = False
+        for g in _enclosing(st, (ast.If,)):
+            for arm in (g.body, g.orelse):
+                if any(st is x for o in arm for x in ast.walk(o)):
+                    continue
+                for o in arm:
+                    for x in ast.walk(o):
+                        if isinstance(x, ast.Compare) and len(x.ops) == 1 \
+                                and isinstance(x.ops[0], (ast.Eq, ast.NotEq)):
+                            sides = {unparse(x.left),
+                                     unparse(x.comparators[0])}
+                            if unparse(tg) in sides and unparse(
+                                    st.value) in sides:
+                                checked = True
+        if checked:
+            continue
+        if local_cache:
+            cr_loops = set()
+            for c in creations[b.id]:
+                cr_loops |= {id(lp) for lp in _enclosing(c, (ast.For,))}
+            vary = set()
+            for lp in _enclosing(st, (ast.For,)):
+                if id(lp) not in cr_loops:
+                    vary |= {x.id for x in ast.walk(lp.target)
+                             if isinstance(x, ast.Name)}
+        else:
+            vary = set(params)
+        # the key, with plain locals resolved to what they were assigned
+        key_atoms = set()
         e = tg
         while isinstance(e, ast.Subscript):
-            chain |= {x.id for x in ast.walk(e.slice)
-                      if isinstance(x, ast.Name)}
+            key_atoms |= _atoms(e.slice, vary)
+            for x in ast.walk(e.slice):
+                if isinstance(x, ast.Name) and x.id not in vary:
+                    for v in _local_values(fi, x.id):
+                        key_atoms |= _atoms(v, vary)
             e = e.value
-        used = {x.id for x in ast.walk(st.value) if isinstance(x, ast.Name)}
-        missing = (used & vary) - chain
+        used = _atoms(st.value, vary)
+        for x in ast.walk(st.value):
+            if isinstance(x, ast.Name) and x.id not in vary \
+                    and x.id not in creations:
+                for v in _local_values(fi, x.id):
+                    used |= _atoms(v, vary)
+        missing = {a for a in used
+                   if a not in key_atoms and (a[0],) not in key_atoms}
         n += 1
         ctx.touch(fi)
+        shown = sorted(a[0] + (f'[{a[1]}]' if len(a) > 1 and not a[
+            1].startswith('.') else (a[1] if len(a) > 1 else ''))
+                       for a in missing)
         ctx.ob(rule, f'{fi.qual}:{_key_role(st)}', fi.loc(st), not missing,
                'the cached value depends only on its key' if not missing
                else f'`{unparse(st)[:70]}` caches a value computed from '
-               f'{sorted(missing)} under a key that does not contain '
+               f'{shown} under a key that does not contain '
                f'{"it" if len(missing) == 1 else "them"}: a later lookup '
                'with another value of '
-               f'{sorted(missing)} gets the stale entry')
+               f'{shown} gets the stale entry')
     return n
 
 
